@@ -25,9 +25,11 @@ JSpec == JInit /\ [][JNext]_jvars
 
 Rec == JRecs[i]
 UBase == JRecs[ui].u
-UNow == [UBase EXCEPT !.data = [nd \in DOMAIN UBase.data |->
-                                  [f \in DOMAIN UBase.data[nd] |->
-                                     IF <<nd, f>> \in Range(Rec.faults) THEN ErrV("injected") ELSE UBase.data[nd][f]]]]
+UNow == [ types |-> UBase.types, nodeType |-> UBase.nodeType, roots |-> UBase.roots,
+          nth |-> {f \in Range(Rec.faults) : Len(f) = 3},
+          data |-> [nd \in DOMAIN UBase.data |->
+                      [f \in DOMAIN UBase.data[nd] |->
+                         IF <<nd, f>> \in Range(Rec.faults) THEN ErrV("injected") ELSE UBase.data[nd][f]]] ]
 
 Paths(errs) == [k \in DOMAIN errs |-> errs[k].path]
 IsPrefix(p, q) == Len(p) <= Len(q) /\ SubSeq(q, 1, Len(p)) = p
